@@ -59,6 +59,9 @@ impl Tour {
         &&& (p == self.len() || self.network.reach(last, self.nodes@[p]))
         &&& forall|q: int| 0 <= q < p ==> !self.network.reach(last, #[trigger] self.nodes@[q])
     }
+    pub open spec fn pre(&self, s: int) -> Seq<NodeIdx> { self.nodes@.subrange(0, s) }
+    pub open spec fn mid(&self, s: int, e: int) -> Seq<NodeIdx> { if s <= e { self.nodes@.subrange(s, e) } else { Seq::empty() } }
+    pub open spec fn suf(&self, e: int) -> Seq<NodeIdx> { self.nodes@.subrange(e, self.len()) }
     /// C12: removing [s ..= e] would strand a depot (a depot goes but an activity stays)
     pub open spec fn strands_depot(&self, s: int, e: int) -> bool {
         !self.is_dummy && ((s == 0 && e + 1 < self.len() - 1) || (e == self.len() - 1 && s - 1 > 0))
